@@ -174,7 +174,7 @@ func (generator *ConverterGenerator) FromBuilder(context Context, builder ast.Bu
 	generator.initialisedPaths = make(map[string]any)
 	for _, assignment := range builder.Constructor.Assignments {
 		if assignment.Value.Constant != nil {
-			generator.initialisedPaths[assignment.Path.String()] = assignment.Value.Constant
+			generator.initialisedPaths[pathKey(assignment.Path)] = assignment.Value.Constant
 		}
 	}
 
@@ -307,7 +307,7 @@ func (generator *ConverterGenerator) convertOption(context Context, converter Co
 	// if the option appends one possible branch of a disjunction to a list,
 	// we need to treat it differently
 	if mapping.RepeatFor != nil && generator.isAssignmentFromDisjunctionStruct(context, assignments[0]) {
-		path := assignments[0].Path.String()
+		path := pathKey(assignments[0].Path)
 		generator.listOfDisjunctionOptions[path] = append(generator.listOfDisjunctionOptions[path], option)
 		return ConversionMapping{}
 	}
@@ -647,7 +647,7 @@ func (generator *ConverterGenerator) guardForAssignments(valuesRootPath ast.Path
 		// For scalar values, add a guard against assignments equal to what a new builder holds for
 		// that path: what its constructor sets there, or else the default of the type
 		initialValue := assignmentType.Default
-		if constant, initialised := generator.initialisedPaths[assignment.Path.String()]; initialised {
+		if constant, initialised := generator.initialisedPaths[pathKey(assignment.Path)]; initialised {
 			initialValue = constant
 		}
 		if assignmentType.IsScalar() && initialValue != nil {
@@ -704,8 +704,19 @@ func (generator *ConverterGenerator) pathNotNullGuards(rootPath ast.Path, path a
 	return guards
 }
 
+// pathKey identifies a path by its elements: the field `a.b` is not the field `b` of
+// the struct `a`, although both are written "a.b".
+func pathKey(path ast.Path) string {
+	elements := make([]string, 0, len(path))
+	for _, item := range path {
+		elements = append(elements, item.Identifier)
+	}
+
+	return strings.Join(elements, "\x00")
+}
+
 func (generator *ConverterGenerator) assignmentKey(assignment ast.Assignment) string {
-	path := assignment.Path.String()
+	path := pathKey(assignment.Path)
 
 	if assignment.Value.Constant != nil {
 		path += fmt.Sprintf("=%v", assignment.Value.Constant)
@@ -714,7 +725,7 @@ func (generator *ConverterGenerator) assignmentKey(assignment ast.Assignment) st
 	if assignment.Value.Envelope != nil {
 		// TODO: envelope of envelope?
 		for _, envelopeAssignment := range assignment.Value.Envelope.Values {
-			path += "," + envelopeAssignment.Path.String()
+			path += "," + pathKey(envelopeAssignment.Path)
 		}
 	}
 
